@@ -213,7 +213,7 @@ func optTime(m M, k string) *time.Time {
 	if !boolean(c, "set") {
 		return nil
 	}
-	t := TickTime(int(num(c, "t")))
+	t := MarketTime(int(num(c, "t"))) // optional times of messages are sell order expirations
 	return &t
 }
 
